@@ -8,7 +8,7 @@ props = {json.loads(l)['id']: json.loads(l) for l in open('/verif/properties.jso
 d = props[pid]
 W = "/tmp/mut%d_%s" % (rnd, pid)
 ideas = ["- " + json.load(open(p))['what'] for p in sorted(glob.glob('/verif/seeded/%s-m*/meta.json' % pid))]
-nth = {1: "FIRST", 2: "SECOND", 3: "THIRD", 4: "FOURTH", 5: "FIFTH", 6: "SIXTH", 7: "SEVENTH", 8: "EIGHTH"}[rnd]
+nth = {1: "FIRST", 2: "SECOND", 3: "THIRD", 4: "FOURTH", 5: "FIFTH", 6: "SIXTH", 7: "SEVENTH", 8: "EIGHTH", 9: "NINTH"}[rnd]
 txt = f'''You are helping test a verification framework by seeding realistic bugs ("mutants") into a Rust library. Work ONLY inside the scratch git worktree {W} (a checkout of the `lettre` email library, version 0.11.15 plus a few fixes). Do NOT read or write anything under /verif or /repo. There is no network; use `cargo ... --offline` and set CARGO_TARGET_DIR={W}/target.
 
 The property under test ({pid}): "{d['title']}"
